@@ -7,6 +7,130 @@ def optHex (digits : Nat) {w : Nat} : Option (BitVec w) → String
   | some v => hexOfNat digits v.toNat
   | none => "fault"
 
+/-! ## round 3: generated long messages, chunked calls, access logs, the streaming object -/
+
+/-- the message generator shared with the harness (`big`/`trunc` ops): a 32-bit LCG, top byte -/
+def genGo : Nat → UInt32 → Array Byte → Array Byte
+  | 0, _, a => a
+  | k + 1, x, a =>
+    let x' := x * 1664525 + 1013904223
+    genGo k x' (a.push (BitVec.ofNat 8 (x' >>> 24).toNat))
+
+def genData (n : Nat) (gseed : Nat) (mode : Nat) : Array Byte :=
+  if mode = 1 then Array.replicate n (BitVec.ofNat 8 gseed)
+  else genGo n (UInt32.ofNat gseed) (Array.emptyWithCapacity n)
+
+/-- the `len` bytes at `base`: what a call `routine(p + base, len, …)` is entitled to read -/
+def subRd (a : Array Byte) (base len : Nat) : Rd := fun i => if i < len then a[base + i]? else none
+
+/-- `for (off = 0; off < n; off += chunk) seed = routine(p + off, min(chunk, n - off), seed);` (one call with
+length 0 for the empty message) -/
+def runChunks {σ : Type} (a : Array Byte) (chunk : Nat) (call : Rd → Nat → σ → Option σ) :
+    (fuel : Nat) → (off : Nat) → σ → Option σ
+  | 0, _, s => some s
+  | f + 1, off, s =>
+    if off ≥ a.size then some s else
+    let l := min chunk (a.size - off)
+    match call (subRd a off l) l s with
+    | none => none
+    | some s' => runChunks a chunk call f (off + l) s'
+
+def chunked {σ : Type} (a : Array Byte) (chunk : Nat) (call : Rd → Nat → σ → Option σ) (s : σ) : Option σ :=
+  if a.size = 0 then call (subRd a 0 0) 0 s else runChunks a (if chunk = 0 then a.size else chunk) call (a.size + 1) 0 s
+
+def fst? {α β : Type} : Option (α × β) → Option α := Option.map Prod.fst
+
+def call8 (which : String) : Rd → Nat → BitVec 8 → Option (BitVec 8) := fun rd l s =>
+  if which = "crc8" then fst? (crc8G rd logNone (BitVec.ofNat 8 l) s ())
+  else fst? (crc8TableG rd logNone (BitVec.ofNat 8 l) s ())
+def call16 : Rd → Nat → BitVec 16 → Option (BitVec 16) := fun rd l s => fst? (crc16G rd logNone (BitVec.ofNat 16 l) s ())
+def call32 : Rd → Nat → BitVec 32 → Option (BitVec 32) := fun rd l s => fst? (crc32G rd logNone (BitVec.ofNat 32 l) s ())
+
+/-- above this size the 8/16-bit routines are folded with the byte tables (`driver_tables`) -/
+def bigLimit : Nat := 70000
+
+def logText (len : Nat) (t : List Ev) : String :=
+  if t = (List.range len).map Ev.rd then s!"r[0,{len}) w-" else "unexpected-access-log"
+
+def accOut (digits : Nat) {w : Nat} (len : Nat) : Option (BitVec w × List Ev) → String
+  | some (v, t) => hexOfNat digits v.toNat ++ " " ++ logText len t
+  | none => "fault"
+
+def parseStrmTok (tok : String) : Option (List StrmOp) :=
+  match tok.splitOn ":" with
+  | ["i", v] => (bv 8 v).map fun v => [StrmOp.init v]
+  | ["f", m] => (parseBytes? m).map fun m => m.map StrmOp.feed
+  | _ => none
+
+def strmObj : BitVec 8 → List String → Option (List String)
+  | _, [] => some []
+  | crc, tok :: rest => do
+    let ops ← parseStrmTok tok
+    let crc' := strmRun crc ops
+    let tl ← strmObj crc' rest
+    pure (hexOfNat 2 crc'.toNat :: tl)
+
+def m9 : List Byte := [0x31, 0x32, 0x33, 0x34, 0x35, 0x36, 0x37, 0x38, 0x39]
+
+def round3 (ws : List String) : Option String :=
+  match ws with
+  | ["tbl32"] => some (" ".intercalate (crc32Table.map fun v => hexOfNat 8 v.toNat))
+  -- widths of the length / seed / result types the model embeds (`BitVec 8/16/32` above)
+  | ["sizes"] => some "crc8 1 1 1|crc8t 1 1 1|crc16 2 2 2|mmc7 1 1|crc32 4 4 4|strm 1 1|tbl8 32"
+  | ["premain"] => some (optHex 2 (crc8TableM m9 9 0) ++ " " ++ optHex 2 (crc8M m9 9 0) ++ " " ++ optHex 4 (crc16M m9 9 0) ++ " "
+        ++ optHex 2 (mmcCrc7M m9 9) ++ " " ++ optHex 8 (crc32 [0, 0, 0, 0] 4 0xffffffff) ++ " " ++ hexOfNat 2 (strmcrc8 0xff m9).toNat)
+  | "strmobj" :: toks => (strmObj 0 toks).map fun vs => " ".intercalate vs
+  | ["acc", op, len, seed, m, _] => do
+      let m ← parseBytes? m
+      let n ← len.toNat?
+      match op with
+      | "crc8" => do let s ← bv 8 seed; if n < 256 then pure (accOut 2 n (crc8G (listRd m) logEv (BitVec.ofNat 8 n) s [])) else none
+      | "crc8t" => do let s ← bv 8 seed; if n < 256 then pure (accOut 2 n (crc8TableG (listRd m) logEv (BitVec.ofNat 8 n) s [])) else none
+      | "crc16" => do let s ← bv 16 seed; if n < 65536 then pure (accOut 4 n (crc16G (listRd m) logEv (BitVec.ofNat 16 n) s [])) else none
+      | "mmc7" => if n < 256 then pure (accOut 2 n (mmcCrc7G (listRd m) logEv (BitVec.ofNat 8 n) [])) else none
+      | "crc32" => do let s ← bv 32 seed; if n < 2 ^ 32 then pure (accOut 8 n (crc32G (listRd m) logEv (BitVec.ofNat 32 n) s [])) else none
+      | _ => none
+  -- the length argument `n` converted to the parameter's type by the call; the buffer has exactly that many bytes
+  | ["trunc", op, n, seed, gseed] => do
+      let n ← n.toNat?
+      let g ← gseed.toNat?
+      match op with
+      | "crc8" => do let s ← bv 8 seed; let a := genData (n % 256) g 0; pure (optHex 2 (call8 "crc8" (arrRd a) (n % 256) s))
+      | "crc8t" => do let s ← bv 8 seed; let a := genData (n % 256) g 0; pure (optHex 2 (call8 "crc8t" (arrRd a) (n % 256) s))
+      | "crc16" => do let s ← bv 16 seed; let a := genData (n % 65536) g 0; pure (optHex 4 (call16 (arrRd a) (n % 65536) s))
+      | "mmc7" => let a := genData (n % 256) g 0; pure (optHex 2 (fst? (mmcCrc7G (arrRd a) logNone (BitVec.ofNat 8 n) ())))
+      | "crc32" => do let s ← bv 32 seed; let a := genData (n % 2 ^ 32) g 0; pure (optHex 8 (call32 (arrRd a) (n % 2 ^ 32) s))
+      | _ => none
+  -- big <routine> <n> <seed> <gseed> <mode> <align> <chunk>: generated message, fed in chunks (0 = one call)
+  | ["big", op, n, seed, gseed, mode, _, chunk] => do
+      let n ← n.toNat?
+      let g ← gseed.toNat?
+      let mode ← mode.toNat?
+      let chunk ← chunk.toNat?
+      let a := genData n g mode
+      match op with
+      | "strm" => do
+          let s ← bv 8 seed
+          pure (hexOfNat 2 (if n ≤ bigLimit then strmRun s (a.toList.map StrmOp.feed) else a.foldl (tabStep8 strmTab) s).toNat)
+      | "crc8" => do
+          let s ← bv 8 seed
+          if n ≤ bigLimit then pure (optHex 2 (chunked a chunk (call8 "crc8") s))
+          else pure (hexOfNat 2 (a.foldl (tabStep8 dowTab) s).toNat)
+      | "crc8t" => do
+          let s ← bv 8 seed
+          if n ≤ bigLimit then pure (optHex 2 (chunked a chunk (call8 "crc8t") s))
+          else pure (hexOfNat 2 (a.foldl (tabStep8 tblTab) s).toNat)
+      | "crc16" => do
+          let s ← bv 16 seed
+          if n ≤ bigLimit then pure (optHex 4 (chunked a chunk call16 s))
+          else pure (hexOfNat 4 (a.foldl tabStep16 s).toNat)
+      | "mmc7" => if n < 256 then pure (optHex 2 (fst? (mmcCrc7G (arrRd a) logNone (BitVec.ofNat 8 n) ()))) else none
+      | "crc32" => do
+          let s ← bv 32 seed
+          pure (optHex 8 (chunked a chunk call32 s))
+      | _ => none
+  | _ => none
+
 def stepLine (_ : Unit) (line : String) : Unit × String :=
   let r : Option String :=
     match words line with
@@ -18,6 +142,8 @@ def stepLine (_ : Unit) (line : String) : Unit × String :=
           ++ hexOfNat 2 (strmcrc8 0xff m9).toNat ++ " " ++ optHex 4 (crc16M m9 9 0) ++ " " ++ optHex 4 (crc16M m9 9 0xffff) ++ " "
           ++ optHex 4 (crc16M m9 9 0x1d0f) ++ " " ++ optHex 8 (crc32 [0, 0, 0, 0] 4 0xffffffff) ++ " "
           ++ optHex 8 (crc32 [0x34, 0x33, 0x32, 0x31, 0x38, 0x37, 0x36, 0x35] 8 0xffffffff))
+    | "tbl32" :: _ | "sizes" :: _ | "premain" :: _ | "strmobj" :: _ | "acc" :: _ | "trunc" :: _ | "big" :: _ =>
+        round3 (words line)
     | ["mmc7", m] => do
         let m ← parseBytes? m
         if m.length < 256 then pure (optHex 2 (mmcCrc7M m (BitVec.ofNat 8 m.length))) else none
@@ -43,6 +169,9 @@ def stepLine (_ : Unit) (line : String) : Unit × String :=
         | "crc32" => do
             let s ← bv 32 seed
             -- the model is given exactly the caller's bytes: a read outside them is a fault
+            -- long messages: the index-level model over an `Array` (`crc32_counter_width`: the same value;
+            -- the `List` model pays O(offset) for every load)
+            if m.length > 4096 then pure (optHex 8 (call32 (arrRd m.toArray) m.length s)) else
             match crc32 m m.length s with
             | some v => pure (hexOfNat 8 v.toNat)
             | none => pure "fault"
